@@ -17,6 +17,10 @@ def run(ctx):
         graph_replay(ctx, "Queue", "Queue", cfg, "seq_void" if void else "seq", rp, PROJ, header_fn=hdr,
                      merge_re=r"(PushResolve|UnblockResolve)$", must_take=ACTIONS,
                      constants=deep or None, extra_random=200 if ctx.quick else 2000)
+    conc_replay(ctx)
+
+
+def conc_replay(ctx, tag="conc", max_paths_quick=1500):
     # all interleavings of client threads at critical-section grain, replayed on real threads: the queue's
     # std::mutex is virtual (interposed pthread layer), so the critical section and the promise resolution
     # that follows the unlock are separately scheduled
@@ -28,9 +32,9 @@ def run(ctx):
         d["pend"] = {t: ("idle" if p == "idle" else "resolve") for t, p in st["pc"].items()}
         return d
     threads = ["t1", "t2", "t3"]
-    graph_replay(ctx, "Queue", "Queue", "Queue_conc.cfg" if ctx.quick else "Queue_conc_deep.cfg", "conc", rpc, cproj,
+    graph_replay(ctx, "Queue", "Queue", "Queue_conc.cfg" if ctx.quick else "Queue_conc_deep.cfg", tag, rpc, cproj,
                  header_fn=lambda k, st0: {"threads": threads}, must_take=ACTIONS,
-                 max_paths=1500 if ctx.quick else None,
+                 max_paths=max_paths_quick if ctx.quick else None,
                  constants=None)
     ctx.assume("multi-thread replay at lock grain: atomic operations are not scheduling points (the promise/future protocol "
                "itself is decided by C01/C02)")
